@@ -117,6 +117,7 @@ def random_pg(
     allow_empty=False,
     allow_isolated=True,
     one_sided_bond_desc=0.05,
+    p_invalid=0.15,
 ):
     if allow_empty and rng.random() < 0.02:
         return sem.pg_empty(cls)
@@ -157,32 +158,50 @@ def random_pg(
             ba["bond_order"] = rng.choice([1, 2, 1.5])
         pg["bonds"][frozenset((ids[x], ids[y]))] = ba
     if cls in STEREO:
-        decorate(rng, pg, p_stereo=p_stereo, p_none=p_none, p_change=p_change if cls in REACTION else 0.0, one_sided=one_sided_bond_desc)
+        decorate(rng, pg, p_stereo=p_stereo, p_none=p_none, p_change=p_change if cls in REACTION else 0.0, one_sided=one_sided_bond_desc, valid=rng.random() >= p_invalid)
     return pg
 
 
-def decorate(rng, pg, p_stereo=0.6, p_none=0.0, p_change=0.0, one_sided=0.05):
-    """valid random decoration with descriptors (and changes for stereo reaction graphs)."""
+def _struct_nbrs(pg):
+    """neighbour sets per structure: reactant (BROKEN slot), product (FORMED), ts (FLEETING)"""
+    out = {}
+    for slot, keep in (("BROKEN", (None, "BROKEN")), ("FORMED", (None, "FORMED")), ("FLEETING", (None, "BROKEN", "FORMED", "FLEETING"))):
+        n = {a: set() for a in pg["atoms"]}
+        for b, v in pg["bonds"].items():
+            if v.get("reaction") in keep:
+                x, y = tuple(b)
+                n[x].add(y)
+                n[y].add(x)
+        out[slot] = n
+    return out
+
+
+def decorate(rng, pg, p_stereo=0.6, p_none=0.0, p_change=0.0, one_sided=0.05, valid=True):
+    """random decoration with descriptors (and changes for stereo reaction graphs).
+    valid=True: every descriptor only names ligands bonded to its centre in each structure
+    (reactant / product / TS) where it is present; valid=False: ligands from the union of all bonds."""
     nbr = sem.pg_neighbors(pg)
     reaction = pg["cls"] in REACTION
+    sn = _struct_nbrs(pg) if (reaction and valid) else None
+    all_slots = [s for r in (1, 2, 3) for s in itertools.combinations(ROLES, r)]
     for a in list(pg["atoms"]):
-        k = len(nbr[a])
-        if k not in (3, 4, 5, 6) or rng.random() > p_stereo:
+        if rng.random() > p_stereo:
             continue
-        if reaction and rng.random() < p_change:
-            slots = rng.choice([s for r in (1, 2, 3) for s in itertools.combinations(ROLES, r)])
+        static_ok = sn is None or (sn["BROKEN"][a] == sn["FORMED"][a] == sn["FLEETING"][a])
+        if reaction and (rng.random() < p_change or not static_ok):
+            slots = rng.choice(all_slots)
             v = {}
             for s in slots:
-                d = _atom_desc(rng, a, nbr[a], p_none)
+                d = _atom_desc(rng, a, sn[s][a] if sn else nbr[a], p_none)
                 if d:
                     v[s] = d
             if v:
                 pg["achange"][a] = v
-            if rng.random() < 0.1:
+            if static_ok and rng.random() < 0.1:
                 d = _atom_desc(rng, a, nbr[a], p_none)
                 if d:
                     pg["astereo"][a] = d
-        else:
+        elif static_ok:
             d = _atom_desc(rng, a, nbr[a], p_none)
             if d:
                 pg["astereo"][a] = d
@@ -190,24 +209,31 @@ def decorate(rng, pg, p_stereo=0.6, p_none=0.0, p_change=0.0, one_sided=0.05):
         x, y = sorted(b, key=repr)
         if rng.random() < 0.5:
             x, y = y, x
-        nx, ny = nbr[x] - {y}, nbr[y] - {x}
-        if len(nx) > 2 or len(ny) > 2 or rng.random() > p_stereo * 0.7:
-            continue
-        if (not nx or not ny) and rng.random() > one_sided:
+        if rng.random() > p_stereo * 0.7:
             continue
         role = pg["bonds"][b].get("reaction")
-        if reaction and rng.random() < p_change:
+
+        def mk(nx, ny):
+            nx, ny = nx - {y}, ny - {x}
+            if len(nx) > 2 or len(ny) > 2:
+                return None
+            if (not nx or not ny) and rng.random() > one_sided:
+                return None
+            return _bond_desc(rng, x, y, nx, ny, p_none)
+
+        static_ok = role is None and (sn is None or all(sn["BROKEN"][e] == sn["FORMED"][e] == sn["FLEETING"][e] for e in (x, y)))
+        if reaction and (rng.random() < p_change or not static_ok):
             allowed = [s for s in ROLES if s == "FLEETING" or role is None or role == s]
-            slots = rng.choice([s for r in (1, 2, 3) for s in itertools.combinations(allowed, r)] or [()])
+            slots = rng.choice([s for s in all_slots if all(q in allowed for q in s)] or [()])
             v = {}
             for s in slots:
-                d = _bond_desc(rng, x, y, nx, ny, p_none)
+                d = mk(sn[s][x], sn[s][y]) if sn else mk(nbr[x], nbr[y])
                 if d:
                     v[s] = d
             if v:
                 pg["bchange"][b] = v
-        else:
-            d = _bond_desc(rng, x, y, nx, ny, p_none)
+        elif static_ok:
+            d = mk(nbr[x], nbr[y])
             if d:
                 pg["bstereo"][b] = d
     return pg
